@@ -23,6 +23,7 @@ def run_protoc(
     desc_path: Optional[str] = None,
     opts: Sequence[str] = (),
     timeout: float = 900,
+    extra_env: Optional[dict] = None,
 ) -> subprocess.CompletedProcess:
     """protoc (grpc_tools) + betterproto plugin from the tree under test (ruff = identity shim)."""
     cmd = [env.PY, "-m", "grpc_tools.protoc", f"-I{proto_dir}"]
@@ -35,7 +36,7 @@ def run_protoc(
         cmd += [f"--descriptor_set_out={desc_path}", "--include_imports", "--include_source_info"]
     cmd += [os.path.join(proto_dir, f) for f in files]
     return subprocess.run(
-        cmd, env=env.child_env(), capture_output=True, text=True, timeout=timeout
+        cmd, env=env.child_env(extra_env), capture_output=True, text=True, timeout=timeout, errors="replace"
     )
 
 
